@@ -24,7 +24,7 @@ def prod_body():
 {producer_def}
 def read_value():
     {read_import}
-    return "read:" + {load_name}("/c09/p")
+{read_body}
 def kept_reader():
     CALLS.append("reader")
     return read_value()
@@ -56,11 +56,16 @@ def main():
     sys.path.insert(0, d)
     n = 0
     try:
-        STYLES = {"module": ("pass", "dds.load"), "local_import": ("import dds", "dds.load"), "local_import_as": ("import dds as d2", "d2.load"), "local_from_import": ("from dds import load as ld", "ld")}
+        STYLES = {"module": ("pass", "dds.load"), "local_import": ("import dds", "dds.load"), "local_import_as": ("import dds as d2", "d2.load"), "local_from_import": ("from dds import load as ld", "ld"),
+                  "keyword_argument_value": ("pass", "dds.load"), "argument_of_a_method_of_a_local_object": ("pass", "dds.load"), "inside_a_comprehension": ("pass", "dds.load"), "default_of_a_conditional_expression": ("pass", "dds.load")}
+        BODIES = {"keyword_argument_value": '    return "read:" + "{x}".format(x=%s("/c09/p"))', "argument_of_a_method_of_a_local_object": '    acc = []\n    acc.append(%s("/c09/p"))\n    return "read:" + acc[0]',
+                  "inside_a_comprehension": '    return "read:" + [%s(p_) for p_ in ["/c09/p"]][0]', "default_of_a_conditional_expression": '    return "read:" + (%s("/c09/p") if V > 0 else "")'}
         cases = [(pk, pl, wh, "module") for pk, pl, wh in itertools.product(("keep", "data_function"), ("inline", "top", "helper", "kept"), ("before", "after", "after_populated", "earlier", "never"))]
         # how the reading function gets hold of dds: module-level import (above) or an import inside the function body
         cases += [("keep", pl, wh, st) for pl, wh, st in itertools.product(("top", "kept"), ("before", "earlier", "after"), ("local_import", "local_import_as", "local_from_import"))]
         # the producing function kept under two paths in the same evaluation (the loaded path is the second keep site)
+        # where in the reader's body the load is written
+        cases += [("keep", pl, wh, st) for pl, wh, st in itertools.product(("top", "kept"), ("before", "earlier"), ("keyword_argument_value", "argument_of_a_method_of_a_local_object", "default_of_a_conditional_expression"))]
         cases += [("keep_twice", pl, wh, "module") for pl, wh in itertools.product(("top", "kept"), ("before", "after", "after_populated", "earlier"))]
         for prod_kind, placement, when, style in cases:
             n += 1
@@ -84,7 +89,8 @@ def main():
                 root_body = "return %s" % read
             name = "c09_mod_%d" % n
             with open(os.path.join(d, name + ".py"), "w") as f:
-                f.write(TEMPLATE.format(producer_def=producer_def, helper_body=helper_body, root_body=root_body, produce_call=produce_call, read_import=read_import, load_name=load_name))
+                read_body = BODIES.get(style, '    return "read:" + %s("/c09/p")') % load_name
+                f.write(TEMPLATE.format(producer_def=producer_def, helper_body=helper_body, root_body=root_body, produce_call=produce_call, read_import=read_import, read_body=read_body))
             m = importlib.import_module(name)
             dds.accept_module(m)
             kinds_ = ["memory"]
@@ -98,7 +104,7 @@ def main():
                 else:
                     sd = os.path.join(d, "store_%d" % n)
                     dds.set_store("local", internal_dir=os.path.join(sd, "int"), data_dir=os.path.join(sd, "data"), cache_objects=2)
-                tag = "producer=%s placement=%s producer-%s%s%s" % (prod_kind, placement, when, "" if style == "module" else " (the reader does `%s` inside its body)" % read_import, "" if sk == "memory" else " [store: %s]" % sk)
+                tag = "producer=%s placement=%s producer-%s%s%s" % (prod_kind, placement, when, "" if style == "module" else (" (the reader does `%s` inside its body)" % read_import if read_import != "pass" else " (the load is written as %s)" % style.replace("_", " ")), "" if sk == "memory" else " [store: %s]" % sk)
                 results = []
                 if when == "after_populated":
                     # the path was committed by an earlier evaluation; then a dependency of the producer is edited
@@ -142,7 +148,7 @@ def main():
     finally:
         sys.path.remove(d)
         shutil.rmtree(d, ignore_errors=True)
-    print(json.dumps({"scope": "2 producer kinds x 4 load placements x 5 producer positions x history (V=1 fresh, V=2 populated, V=1 again) on the memory store; the 16 module-level before / earlier cases also behind the object cache (memory, local) + 8 cases where the producing function is kept under two paths + 18 cases where the reader imports dds inside its body (import / import as / from import)", "evaluations": evals, "distinct_nontrivial": n, "exhaustive": True,
+    print(json.dumps({"scope": "2 producer kinds x 4 load placements x 5 producer positions x history (V=1 fresh, V=2 populated, V=1 again) on the memory store; the 16 module-level before / earlier cases also behind the object cache (memory, local) + 8 cases where the producing function is kept under two paths + 18 cases where the reader imports dds inside its body (import / import as / from import) + 12 cases where the load is written inside a keyword-argument value / an argument of a method of a local object / a conditional expression", "evaluations": evals, "distinct_nontrivial": n, "exhaustive": True,
                       "rule": "one case per (producer kind, placement, position); each evaluated twice with a changed dependency", "samples": samples, "violations": violations,
                       "known_hits": ["bounded:%s (%d cases, e.g. %s)" % (c, len(w), w[0][:170]) for c, w in sorted(known.items())]}))
 
